@@ -107,6 +107,16 @@ pub enum Caught<T> {
     Foreign(String),
 }
 
+impl<T> Caught<T> {
+    pub fn map<R>(self, f: impl FnOnce(T) -> R) -> Caught<R> {
+        match self {
+            Caught::Ok(v) => Caught::Ok(f(v)),
+            Caught::Injected(c) => Caught::Injected(c),
+            Caught::Foreign(m) => Caught::Foreign(m),
+        }
+    }
+}
+
 /// Run `f`, classify a panic as injected (marker payload) or foreign.
 pub fn catch<T>(f: impl FnOnce() -> T) -> Caught<T> {
     match std::panic::catch_unwind(std::panic::AssertUnwindSafe(f)) {
